@@ -79,6 +79,11 @@ type Result struct {
 	PanicTask string
 	Leaked    []Leak
 	Deadlock  bool
+	// MainBlocked: the execution ended because nothing was enabled and no timer was pending while the main task
+	// (the scenario body) was still waiting for something - a call it made never returned.  MainOp names the
+	// operation it is blocked in.
+	MainBlocked bool
+	MainOp      string
 	Capped    bool
 	End       stdtime.Duration
 }
@@ -514,6 +519,10 @@ func (s *Sched) schedule(me *Task) {
 			}
 			// nothing enabled and no timer pending: deadlock (or quiescent end with main blocked)
 			s.res.Deadlock = true
+			if m := s.tasks[0]; !m.done {
+				s.res.MainBlocked = true
+				s.res.MainOp = fmt.Sprintf("%s on object %d", m.op, m.obj)
+			}
 			s.finish()
 			if !me.done {
 				me.gate.wait()
